@@ -16,3 +16,5 @@ for P in "$@"; do
 done
 git -C /repo checkout -- .
 cp /verif/.work/ev_backup/*.json evidence/ 2>/dev/null
+# leave coq/Gen in the state of the unchanged tree (the checks above regenerated it from the mutated tree)
+(cd /verif && PYTHONPATH=/repo /venv/bin/python extract/gen.py > /dev/null 2>&1 || true)
